@@ -106,6 +106,13 @@ def run(prop, tier, seed, known):
                 for kind, src in sources('\n'.join(broken) + '\n'):
                     expect('load_intervals with an unparsable number', lambda: IO.load_intervals(src, delimiter=dre),
                            lambda r: None if isinstance(r, ValueError) and ':%d:' % (bad_row + 1) in str(r) else 'expected ValueError naming row %d, got %r' % (bad_row + 1, r))
+                # the same fault after comment lines: the row named is the line of the file, comments included
+                ncom = rng.randint(1, 3)
+                withc = ['# comment %d' % c_ for c_ in range(ncom)] + broken
+                for kind, src in sources('\n'.join(withc) + '\n'):
+                    expect('load_intervals with an unparsable number after %d comment lines' % ncom, lambda: IO.load_intervals(src, delimiter=dre),
+                           lambda r: None if isinstance(r, ValueError) and ':%d:' % (bad_row + 1 + ncom) in str(r)
+                           else 'expected ValueError naming row %d (line of the file), got %r' % (bad_row + 1 + ncom, r))
             # the comment marker is a regular expression (documented): alternatives and classes must work in every loader
             for cre, marks in (('[#%]', ['#', '%']), ('#|;', ['#', ';']), (r'\s*//', ['//', '  //'])):
                 ev2 = sorted(floats(3))
